@@ -205,8 +205,41 @@ def run(ctx, model=None):
         if len(games) > 1:
             sub = [x for x in games if rng.random() < 0.6] or games[:1]
             run_batch(ctx, sub, None, "subset", solos)
+        if it % (10 if ctx.quick() else 20) == 0:
+            cli_batch(ctx, [(n, {k: v for k, v in g.items() if k != "prune_states"}) for n, g in games])
         if ctx.time_left() < 0:
             return
+
+
+def cli_batch(ctx, games):
+    """python conditionalrewards.py -f FILE -s (observe_at of C12): the run must finish and write one
+    block per entry, failing games included"""
+    import os, shutil, subprocess, sys, tempfile
+    from crlib import REPO
+    d = tempfile.mkdtemp(prefix="crv_")
+    try:
+        os.mkdir(os.path.join(d, "inputs"))
+        os.mkdir(os.path.join(d, "outputs"))
+        text = "{\n" + ",\n".join(f"    {n!r}: {g!r}" for n, g in games) + "\n}\n"
+        open(os.path.join(d, "inputs", "batch_1.py"), "w").write(text)
+        p = subprocess.run([sys.executable, os.path.join(REPO, "conditionalrewards.py"), "-f", "inputs/batch_1.py", "-s"],
+                           cwd=d, capture_output=True, text=True, timeout=120,
+                           env=dict(os.environ, PYTHONPATH=REPO, PYTHONDONTWRITEBYTECODE="1"))
+        out = os.path.join(d, "outputs", "batch_1.txt")
+        rep = open(out).read() if os.path.exists(out) else ""
+    except subprocess.TimeoutExpired:
+        ctx.violation("cli-batch-terminates", {"games": [[n, g] for n, g in games]}, {})
+        return
+    finally:
+        shutil.rmtree(d, ignore_errors=True)
+    names = [ln.split(": ", 1)[1] for ln in rep.split("\n") if ln.startswith("Running example")]
+    exp = []
+    for n, _ in games:
+        exp += [n, n + "_no_prune"]
+    ctx.case({"cli": [n for n, _ in games]}, True)
+    if p.returncode != 0 or names != exp or rep.count("Total time") != len(exp):
+        ctx.violation("cli-batch-reports-every-entry", {"games": [[n, g] for n, g in games]},
+                      {"rc": p.returncode, "blocks": names, "expected": exp, "stderr": p.stderr[-300:]})
 
 
 def known_findings(ctx):
